@@ -10,7 +10,8 @@ def run(c):
               "into missing namespaces) / delete / request of another type for an existing row / builtin (negative id) entities / "
               "duplicate creates, interleaved with journal reads and full paging walks, GetEntityVersioned, GetHistoryShort, state dumps; "
               "1 case in 25 carries 200-600 KB payloads to reach the journal byte limit; every 8th case races 8 goroutines with identical "
-              "requests (create same name / edit same version / edit stale version); every 4th case drives the journal long-poll path of the REAL "
+              "requests (create same name / edit same version / edit stale version) and then 8 goroutines with DIFFERENT payloads (new names, data, "
+              "metadata) from one version, of which only winner-independent facts are printed; every 4th case drives the journal long-poll path of the REAL "
               "rpc Handler over a loopback rpc server (2-4 clients sending metadata.getJournalnew, mostly continuing from the CurrentVersion they were "
               "given; saves applied with db.SaveEntity whose broadcastJournal is delayed to an explicit `broadcast` op, and saves through "
               "RawEditEntity; replies per client are diffed against the model's waiting list + trim rule). Non-trivial = a history with a successful edit AND a "
@@ -78,8 +79,10 @@ META = {
                   "+ op-by-op differential correspondence with the real DBV2 on real SQLite + direct property oracle on the real replies"),
     "text": ("Kernel-checked for every history of requests: an edit succeeds only from the entity's current version; every successful save "
              "gets max(previous versions)+1, so versions are globally unique and strictly increasing; once an edit from version v succeeded no "
-             "later request naming v can succeed (at most one winner in any schedule) and k otherwise-valid racing edits have exactly one winner; "
-             "(namespace_id,type,name) stays unique; a request of type namespace cannot change the name (partial: type-mismatched requests excluded); a namespaced metric/group gets the id of an "
+             "later request naming v can succeed (at most one winner in any schedule) and k otherwise-valid racing edits have exactly one winner, also when the racing requests differ in name/data/metadata (one_winner quantifies over arbitrary requests); "
+             "(namespace_id,type,name) stays unique; namespaces: one SaveEntity leaves every namespace row in place with its name unless the request aims a foreign type at its id "
+             "(namespace_rename_only_by_foreign_type, the strongest true statement), hence along every history of well-typed requests every namespace keeps "
+             "id, type and name forever (namespace_not_renamable); a namespaced metric/group gets the id of an "
              "existing namespace row and that reference never dangles; the journal is strictly ascending by version, lists every entity at most "
              "once at its current version, is a prefix of the full list and paging from the last delivered version continues exactly where it stopped. Long-poll (rpc_handler.go): every reply of broadcastJournal is non-empty, strictly ascending, "
              "only versions newer than that client's From, contains every current row between its From and the returned CurrentVersion; a "
@@ -89,8 +92,10 @@ META = {
              "builtin-namespace-rename.ops): a namespace request with the create flag for an EXISTING builtin (negative id) namespace is turned into an "
              "edit by SaveEntity but skipped checkNamespace, so it renames the namespace. The model and the theorems describe the code with "
              "fixes/C15-builtin-namespace-rename.diff applied (Variant.fixed); Variant.old reproduces the pinned tree and the violation is a `decide` "
-             "example in Props/C15. Observed and reported, not alarmed on: a request whose EventType differs from the row's type is applied to the row "
-             "(SaveEntity never compares them), so e.g. a 'metric' request can overwrite and rename a namespace row; namespace_not_renamable_partial is "
-             "therefore about requests of type namespace, and the oracles skip rows touched by a type-mismatched request."),
+             "example in Props/C15. FINDING reported, modelled (model = code), not alarmed on: neither RawEditEntity nor SaveEntity compares the request's "
+             "EventType with the row's type, so metadata.editEntitynew with type metric aimed at a namespace's id+version overwrites and RENAMES the namespace row "
+             "(replayed through the real rpc Handler: corpus/C15/type-mismatch-namespace-rename.ops; Lean witness next to namespace_not_renamable; proposed fix "
+             "fixes/C15-edit-type-mismatch.proposal.diff). namespace_not_renamable therefore carries the hypothesis WellTypedHistory, and the oracles skip rows "
+             "touched by a type-mismatched request (counted as save.ok.namespace-renamed-by-foreign-type)."),
     "design_ref": "DESIGN.md §6 C15",
 }
